@@ -27,7 +27,7 @@ def _tlc_cmd(wd, cfg, workers, heap):
             "-metadir", os.path.join(wd, "meta-" + cfg), "-noGenerateSpecTE", "-deadlock", "-config", cfg, "MC_ReadyWindow.tla"]
 
 
-def graph_replay(sim_bin, work, tag, constants, walks, seed, tlc_workers=4, walk_workers=6, timeout=1500):
+def graph_replay(sim_bin, work, tag, constants, walks, seed, tlc_workers=4, walk_workers=6, timeout=1500, heap="4g"):
     """One MC_ReadyWindow instance: TLC -> EDGE lines -> raftsim window. constants: dict(MaxTerm, Families)."""
     wd = _prep(work, tag)
     cfg = "inst-%s.cfg" % tag
@@ -36,7 +36,7 @@ def graph_replay(sim_bin, work, tag, constants, walks, seed, tlc_workers=4, walk
                 "INVARIANTS TypeOK NoPanic CommittedIsLeaders AppliedIsLeaders AckIsDurable AckedNotLost Quiescent\n"
                 "PROPERTIES ReadyImmutable\nVIEW View\nACTION_CONSTRAINT Emit\nCHECK_DEADLOCK FALSE\n" % (constants["MaxTerm"], constants["Families"]))
     t0 = time.time()
-    tlc = subprocess.Popen(_tlc_cmd(wd, cfg, tlc_workers, "4g"), cwd=wd, env=common.env(), stdout=subprocess.PIPE, stderr=subprocess.STDOUT)
+    tlc = subprocess.Popen(_tlc_cmd(wd, cfg, tlc_workers, heap), cwd=wd, env=common.env(), stdout=subprocess.PIPE, stderr=subprocess.STDOUT)
     walker = subprocess.Popen([sim_bin, "window", "-workers", str(walk_workers), "-walks", str(walks), "-depth", "40", "-seed", str(seed)],
                               stdin=subprocess.PIPE, stdout=subprocess.PIPE, stderr=subprocess.PIPE)
     wout = []
@@ -77,7 +77,9 @@ def graph_replay(sim_bin, work, tag, constants, walks, seed, tlc_workers=4, walk
     for m in common._RE_STATES.finditer(logtxt):
         pass
     if tlc.returncode != 0 or not m or "Model checking completed. No error" not in logtxt:
-        common.die_infra("TLC failed on ReadyWindow instance %s (rc=%s):\n%s" % (tag, tlc.returncode, logtxt[-3000:]))
+        import re as _re
+        err = _re.search(r"Error: .*(?:\n.*){0,6}", logtxt)
+        common.die_infra("TLC failed on ReadyWindow instance %s (rc=%s): %s\n...\n%s" % (tag, tlc.returncode, err.group(0)[:800] if err else "", logtxt[-1500:]))
     if walker.returncode != 0:
         common.die_infra("raftsim window failed on %s (rc=%s): %s" % (tag, walker.returncode, walker.stderr.read().decode()[-2000:]))
     fails, summary = [], None
@@ -144,7 +146,7 @@ def run(sim_bin, work, tier, seed, pool):
         jobs.append(pool.submit(graph_replay, sim_bin, work, "two", {"MaxTerm": 2, "Families": "QuickTwo"}, 3000, seed, 4, 6))
     else:
         for k in (1, 2, 3, 4):
-            jobs.append(pool.submit(graph_replay, sim_bin, work, "three%d" % k, {"MaxTerm": 3, "Families": "Only%d" % k}, 20000, seed * 10 + k, 4, 6, 3300))
+            jobs.append(pool.submit(graph_replay, sim_bin, work, "three%d" % k, {"MaxTerm": 3, "Families": "Only%d" % k}, 20000, seed * 10 + k, 4, 6, 3300, "10g"))   # 4g: GC overhead limit exceeded (rc 255) at 300-500 k states
         jobs.append(pool.submit(graph_replay, sim_bin, work, "two", {"MaxTerm": 2, "Families": "TwoLeaders"}, 20000, seed, 4, 6))
     mo = []
     if not quick:
